@@ -20,6 +20,7 @@ from vmc.core import Part, digest, exc_text, lib_site
 from vmc.lens import S, V
 from vmc.ref import abcd
 from vmc.ref.prescription import RefLens
+from vmc.ref import prescription
 
 PID = 'C01'
 TOL = 1e-10
@@ -177,6 +178,7 @@ def units(tier, variant):
     for i in range(0, len(ws), B):
         out.append(dict(kind='construct', words=[list(w) for w in ws[i:i + B]], variant=variant))
     out.append(dict(kind='wavelengths', variant=variant))
+    out.append(dict(kind='solve-interplay', variant=variant))
     out.append(dict(kind='insert-remove', variant=variant))
     # pickup chains: both registration orders, edits of the source, one or two updates (histories of length <= 5 over 4 operations)
     ops_d = edit_alphabet('doublet', variant)
@@ -602,6 +604,70 @@ def canon_state(o, ref):
     return digest([obs_lib(o), [list(p_) for p_ in ref.pickups], [list(s_) for s_ in ref.solves]], 16)
 
 
+def run_solve_interplay(part, unit):
+    """Solves whose marginal ray depends on the gap they set, and a pickup whose source gap is set by a solve."""
+    p = V(unit['variant'])
+    g5, g6, g7 = ['ideal', 1.5, 0.0], ['ideal', 1.6, 0.0], ['ideal', 1.7, 0.0]
+
+    def gaps(o):
+        z = np.asarray(o.surface_group.positions, float).ravel()
+        return np.diff(z)
+
+    def ref_height(sp, o, k):
+        sp2 = copy.deepcopy(sp)
+        t = gaps(o)
+        for i, s_ in enumerate(sp2['surfs']):
+            s_['t'] = float(t[i + 1])
+            s_['R'] = float(o.surface_group.surfaces[i + 1].geometry.radius)
+        rows = prescription.rows(sp2, lambda m, prev: LZ.ref_index(m, 0.55, prev))
+        ys, us, _ = abcd.marginal(rows, tuple(sp2['ap']))
+        return ys[k - 1]
+    # (a) interior solve, aperture or conjugate that makes the marginal ray depend on the solved gap
+    base = [S('sphere', R=50.0, mat=g5, t=5.0), S('sphere', R=-50.0, mat='air', t=20.0), S('sphere', R=40.0, mat=g7, t=4.0, stop=True),
+            S('sphere', R=-80.0, mat='air', t=30.0)]
+    for name, obj, ap, h in (('image-F/#', LZ.INF, ('imageFNO', 5.0), 1.5), ('finite-object,stop-behind-the-gap', 100.0, ('EPD', 10.0), 2.58),
+                             ('infinite-object,EPD (control)', LZ.INF, ('EPD', 10.0), 2.0)):
+        sp = LZ.spec(base, obj=obj, ap=ap, ftype='angle', fields=(0.0,), waves=((0.55, True),))
+        o = LZ.build(sp)
+        part.states += 1
+        o.solves.add('marginal_ray_height', 3, h)
+        o.update()
+        part.transitions += 2
+        part.evals += 1
+        got = ref_height(sp, o, 3)
+        part.count('cmp:solve')
+        if abs(got - h) > 1e-8 * max(1.0, abs(h)):
+            part.violation(PID, 'solve-places-marginal-ray-at-requested-height', 'MarginalRayHeightSolve.apply',
+                           'marginal-ray-depends-on-the-solved-gap' if 'control' not in name else 'marginal-ray-independent-of-the-gap',
+                           dict(case=name, surface=3, gaps=[float(v) for v in gaps(o)[1:]]), observed=float(got), expected=h, tol=1e-8)
+        part.outcome('solve', name, round(float(got), 9))
+    # (b) a thickness pickup whose source gap is set by a solve; an upstream edit; update()
+    surfs = [S('sphere', R=60.0, mat=g5, t=4.0, stop=True), S('sphere', R=-60.0, mat='air', t=30.0), S('plane', mat='air', t=10.0),
+             S('sphere', R=-40.0, mat=g6, t=2.0), S('plane', mat='air', t=30.0)]
+    sp = LZ.spec(surfs, obj=LZ.INF, ap=('EPD', 10.0), ftype='angle', fields=(0.0,), waves=((0.55, True),))
+    for order in ('solve-first', 'pickup-first'):
+        o = LZ.build(sp)
+        part.states += 1
+        if order == 'solve-first':
+            o.solves.add('marginal_ray_height', 3, 2.0)
+            o.pickups.add(2, 'thickness', 5, scale=0.5, offset=1.0)
+        else:
+            o.pickups.add(2, 'thickness', 5, scale=0.5, offset=1.0)
+            o.solves.add('marginal_ray_height', 3, 2.0)
+        o.set_radius(70.0, 1)
+        o.update()
+        part.transitions += 4
+        part.evals += 1
+        t = gaps(o)
+        part.count('cmp:pickup')
+        if abs(t[5] - (0.5 * t[2] + 1.0)) > 1e-9 * max(1.0, abs(t[2])):
+            part.violation(PID, 'pickup-target-equals-scale-source-plus-offset', 'Optic.update', 'source-gap-is-set-by-a-solve',
+                           dict(registration=order, history=['solve(3, 2.0)', 'pickup(thickness 2 -> 5, 0.5, 1.0)', 'set_radius(70, 1)', 'update']),
+                           observed=float(t[5]), expected=float(0.5 * t[2] + 1.0), tol=1e-9)
+        part.outcome('pickup-after-solve', order, round(float(t[5]), 9))
+    part.sample(dict(kind='solve-interplay'))
+
+
 def run_edits(part, unit):
     v = unit['variant']
     p = V(v)
@@ -666,6 +732,6 @@ def run_edits(part, unit):
 
 def run_unit(unit):
     part = Part(unit)
-    dict(construct=run_construct, wavelengths=run_wavelengths, edits=run_edits)[unit['kind']](part, unit) if unit['kind'] != 'insert-remove' \
+    {'construct': run_construct, 'wavelengths': run_wavelengths, 'edits': run_edits, 'solve-interplay': run_solve_interplay}[unit['kind']](part, unit) if unit['kind'] != 'insert-remove' \
         else run_insert_remove(part, unit)
     return part
